@@ -188,8 +188,8 @@ pub(super) fn derive_schema(input: TokenStream) -> syn::Result<TokenStream> {
 
                     if field_attrs.serde.flatten {
                         properties.push(quote! {
-                            for (property_name, property_schema, required) in #property_schema.into_properties() {
-                                if required {
+                            for (property_name, property_schema, required) in ::ohkami::openapi::schema::RawSchema::from(#property_schema).into_properties() {
+                                if required && !#is_optional_field {
                                     schema = schema.property(property_name, property_schema);
                                 } else {
                                     schema = schema.optional(property_name, property_schema);
